@@ -46,6 +46,7 @@ def selftest(rep):
     import random
     b = G.Builder("at4", random.Random(1))
     b.preamble()
+    b.op(op="quiesce")
     b.op(op="resolve", how="ok")
     b.op(op="quiesce")
     b.send(G.POL_IDEM)
